@@ -28,6 +28,12 @@ func (e *Error) updateFromTokenIfNeeded(template *Template, t *Token) *Error {
 	}
 
 	if e.Token == nil {
+		if e.Filename != "" && e.Filename != t.Filename && e.Sender != "fromfile" {
+			// the error was raised while parsing another template (an included, imported
+			// or parent one): a token of this template cannot say where in that one.
+			// (A file that could not be loaded is reported at the tag that refers to it.)
+			return e
+		}
 		e.Token = t
 		if e.Line <= 0 {
 			e.Line = t.Line
